@@ -280,7 +280,75 @@ def export_case(case):
     return out, ("export", nfeat)
 
 
+def export_folder_case(case):
+    """a container that is a folder of rating files (several users, each
+    with a file of his own; a curve may be rated in more than one file,
+    with different fits) -> export_training_set -> load_training_set.
+    Expected feature rows come from the objects that were stored (every
+    entry has a rating of its own, which identifies its row)."""
+    from nanite.rate.io import RateManager, save_hdf5
+    from nanite.rate.rater import IndentationRater
+    from nanite.rate.features import IndentationFeatures as IF
+    out = []
+    c16.ensure_fixtures()
+    d = tempfile.mkdtemp(dir=tmpdir())
+
+    def viol(clause, wit, detail):
+        out.append(V(PROP, clause, site="export_training_set:folder",
+                     witness=wit, detail=detail, case=case, kind="export"))
+    nfeat = 0
+    try:
+        cont = os.path.join(d, "ratings")
+        os.mkdir(cont)
+        expected = {}
+        for i, (cname, fname, rate, fn) in enumerate(case["curves"]):
+            idnt = c16.fitted(cname, fname)
+            expected[float(rate)] = [float(v) for v in IF.compute_features(
+                idnt, which_type="continuous")]
+            save_hdf5(os.path.join(cont, fn + ".h5"), idnt, user_rate=rate,
+                      user_name=fn, user_comment=f"c{i}")
+        rm = RateManager(cont)
+        exp_rates = [float(r["rating"]) for r in rm.ratings]
+        if sorted(exp_rates) != sorted(expected):
+            viol("export-roundtrip", "entries", f"the container holds the "
+                 f"ratings {sorted(exp_rates)}, stored {sorted(expected)}")
+            return out, ("export", 0)
+        ts = os.path.join(d, "ts_out")
+        rm.export_training_set(ts)
+        names = IndentationRater.get_feature_names(which_type="continuous")
+        X, Y = IndentationRater.load_training_set(
+            path=ts, replace_inf=False, impute_zero_rated_nan=False,
+            remove_nan=False)
+        X = np.atleast_2d(X)
+        Y = np.atleast_1d(Y)
+        if Y.tolist() != exp_rates:
+            viol("export-order", "responses", f"responses {Y.tolist()}, "
+                 f"user ratings in container order {exp_rates}")
+            return out, ("export", 0)
+        for i, rate in enumerate(Y.tolist()):
+            feats = expected[rate]
+            for j, nm in enumerate(names):
+                a, b = float(X[i, j]), feats[j]
+                nfeat += 1
+                if math.isnan(b) != math.isnan(a):
+                    viol("export-roundtrip", nm, f"NaN pattern differs: "
+                         f"{a} vs {b}")
+                elif not math.isnan(b):
+                    tol = 0.5e-2 * 10 ** math.floor(
+                        math.log10(abs(b))) if b != 0 else 0.0
+                    if not abs(a - b) <= tol * 1.0000001:
+                        viol("export-roundtrip", nm, f"row {i} (rating "
+                             f"{rate}): loaded {a!r}, the stored curve has "
+                             f"{b!r} (three significant digits allow "
+                             f"{tol:.3e})")
+    finally:
+        shutil.rmtree(d, ignore_errors=True)
+    return out, ("export", nfeat)
+
+
 def case_fn(case):
+    if case["kind"] == "export" and case.get("folder"):
+        return export_folder_case(case)
     return {"matrix": matrix_case, "weights": weights_case,
             "export": export_case}[case["kind"]](case)
 
@@ -321,6 +389,17 @@ def cases(tier):
     for e in exports:
         cs.append({"kind": "export", "curves": e})
         cs.append({"kind": "export", "curves": e, "rerate": True})
+    # folders of rating files; curves rated in two files with other fits
+    folders = [
+        [("A0", "f1", 5, "anna"), ("B0", "f1", 0, "anna"),
+         ("B1", "f2", 9, "anna"), ("A0", "f3", 4, "bert"),
+         ("B1", "f1", 8, "bert"), ("C0", "f1", 3, "bert")],
+        [("B0", "f3", 2, "bert"), ("B0", "f1", 6, "anna"),
+         ("B0", "f2", 7, "carl")],
+        [("A0", "f1", 1, "anna"), ("B0", "f2", 10, "bert")],
+    ]
+    for e in folders:
+        cs.append({"kind": "export", "folder": True, "curves": e})
     return cs
 
 
